@@ -294,6 +294,83 @@ theorem expected_sound (i : Input) (e : Out) (h : expected i = some e) : relay i
       · rw [if_neg hc] at h; cases h
     · cases h
 
+/-! ### destination handlers alone: every length word / length byte carries the full length of its field -/
+
+/-- for every message whose fields fit the destination wire format — whatever their lengths, in particular ≥ 256 and
+    ≥ 65536 bytes where the format has 32-byte length words — the destination handler's data is the reference encoding:
+    full-width length words, field bytes unaltered -/
+theorem expectedMsg_sound (dk : DstKind) (m : Msg) (e : Out) (h : expectedMsg dk m = some e) : destOut dk m = e := by
+  obtain ⟨id, typ, payload, gas⟩ := m
+  unfold expectedMsg at h
+  split at h
+  · next _ _ _ a r ht hp =>
+    subst ht hp
+    split at h
+    · next ha =>
+      simp only [Option.some.injEq] at h; rw [← h]
+      simp [destOut, dest, evmHandle, fungibleData_word _ _ ha, Canon.subFungible, pad32_beToNat _ ha]
+    · cases h
+  · next _ _ _ a r o ht hp =>
+    subst ht hp
+    split at h
+    · next ha =>
+      simp only [Option.some.injEq] at h; rw [← h]
+      simp [destOut, dest, evmHandle, fungibleData_word _ _ ha, Canon.subFungible, pad32_beToNat _ ha]
+    · cases h
+  · next _ _ _ a r ht hp =>
+    subst ht hp
+    split at h
+    · next ha =>
+      simp only [Option.some.injEq] at h; rw [← h]
+      simp [destOut, dest, subHandle, fungibleData_word _ _ ha, Canon.subFungible, pad32_beToNat _ ha]
+    · cases h
+  · next _ _ _ a r ht hp =>
+    subst ht hp
+    split at h
+    · next ha =>
+      simp only [Option.some.injEq] at h; rw [← h]
+      simp [destOut, dest, btcHandle, Nat.mod_eq_of_lt ha]
+    · cases h
+  · next _ _ _ t r md ht hp =>
+    subst ht hp
+    split at h
+    · next ha =>
+      simp only [Option.some.injEq] at h; rw [← h]
+      simp [destOut, dest, evmHandle, leftPad_of_length (Nat.le_of_eq ha.symm), Canon.nft, pad32_beToNat _ ha]
+    · cases h
+  · next _ _ _ fs ca fee dep ex ht hp =>
+    subst ht hp
+    split at h
+    · next hc =>
+      obtain ⟨ha, hfs, hca, hdep⟩ := hc
+      simp only [Option.some.injEq] at h; rw [← h]
+      simp [destOut, dest, evmHandle, leftPad_of_length (Nat.le_of_eq ha.symm), Src.generic, pad32_beToNat _ ha,
+        leftPad2 _ hfs]
+    · cases h
+  · next _ _ _ md ht hp =>
+    subst ht hp
+    simp only [Option.some.injEq] at h; rw [← h]
+    simp [destOut, dest, evmHandle]
+  · next _ _ _ ids ams r d ht hp =>
+    subst ht hp
+    split at h
+    · next hwf =>
+      simp only [Option.some.injEq] at h; rw [← h]
+      simp [destOut, dest, evmHandle, hwf.2.2.1]
+    · cases h
+  · cases h
+
+theorem msg_model_satisfies (dk : DstKind) (m : Msg) : P01m dk m (destOut dk m) := by
+  unfold P01m
+  cases h : expectedMsg dk m with
+  | none => trivial
+  | some e => exact expectedMsg_sound dk m e h
+
+/-- non-vacuity at the lengths a one-byte length helper gets wrong: 300-byte recipient, 512-byte metadata -/
+example : expectedMsg .evm ⟨⟨1, 2, 3, []⟩, .nonFungible,
+    [.bytes (List.replicate 32 1), .bytes (List.replicate 300 2), .bytes (List.replicate 512 3)], none⟩ ≠ none := by
+  decide
+
 /-- the predicate the driver evaluates on the implementation's output holds of the model, for every request:
     whenever the request is a well-formed deposit for its (source, destination) pair, `relay` yields exactly the
     expected proposal -/
